@@ -20,10 +20,17 @@
 
   Not modelled: the order in which `np.unique` (byte-wise sort of the int64 triples) hands the occupied
   bins to the sweep — `alg_eq_compared` (Proofs/C03.lean) shows the result does not depend on the order of
-  the compared pairs; the capacity growth of the bin table (`maxatomsperbin`), bins being lists here.
+  the compared pairs.  The bin table `xyzbins` is modelled twice: bins as lists (`members`) and as
+  fixed-capacity rows `[count, a_1, …]` with the growth test / widths / copy loop taken from the source by the
+  translator (`Generated/NlistStorage.lean`, `fillBins`, `membersA`); `bins_refine` (Proofs) shows both agree.
+  The per-atom array growth constants of the source are tied to `insertPairA` by `nbr_growth_as_modelled`.
+
+  Object level: `Op`, `applyOp`, `answers` — a `System` is its current (box, pbc, positions); every
+  `neighborlist` call is answered from the state at the time of the call.
 -/
 import Atomman.Prelude
 import Atomman.Dvect
+import Atomman.Generated.NlistStorage
 
 namespace Atomman.C03
 
@@ -179,6 +186,69 @@ def cands (S : Sys) (cutoff : Rat) : List (Nat × Nat) :=
   let G := mkGrid S cutoff
   candsOf G (entries S G)
 
+/-! ### 4b. the bin table `xyzbins[x, y, z, :]` as fixed-capacity rows `[count, a_1, …, a_maxatomsperbin]` -/
+
+/-- the constants and tests of the growth block of the bin table, as functions of (`c`,) `maxatomsperbin`. -/
+structure BinParams where
+  init : Nat                      -- `maxatomsperbin = 40`
+  initWidth : Nat → Nat           -- last dimension of `xyzbins`
+  trigger : Nat → Nat → Bool      -- `if c == maxatomsperbin`
+  newWidth : Nat → Nat            -- last dimension of `newbins`
+  copyCols : Nat → Nat            -- `for l in range(maxatomsperbin + 1)`
+  grow : Nat → Nat                -- `maxatomsperbin += 10`
+
+/-- what stands in nlist.pyx now (regenerated from the source on every run). -/
+def srcBinParams : BinParams :=
+  ⟨Gen.binInit, Gen.binInitWidth, Gen.binTrigger, Gen.binNewWidth, Gen.binCopyCols, Gen.binGrow⟩
+
+/-- `maxatomsperbin`, the last dimension of the array, and the rows that were written so far (latest first;
+    a bin without an entry is a row of zeros: `np.zeros`). -/
+structure BinTab where
+  maxapb : Nat
+  width : Nat
+  tab : List (Idx × List Nat)
+
+/-- `xyzbins[x, y, z, :]`. -/
+def BinTab.get (st : BinTab) (b : Idx) : List Nat :=
+  match st.tab.lookup b with
+  | some r => r
+  | none => List.replicate st.width 0
+
+/-- one row of `newbins`: zeros, columns `l < copyCols` copied. -/
+def growBinRow (P : BinParams) (m : Nat) (row : List Nat) : List Nat :=
+  (List.range (P.newWidth m)).map fun l => if l < P.copyCols m then row.getD l 0 else 0
+
+/-- the body of `for n in range(atomindex.shape[0])` for the entry `(atomindex[n], xyzindex[n])`. -/
+def binFill (P : BinParams) (st : BinTab) (e : Nat × Idx) : BinTab :=
+  let c := (st.get e.2).getD 0 0 + 1
+  let st1 : BinTab :=
+    if P.trigger c st.maxapb then
+      ⟨P.grow st.maxapb, P.newWidth st.maxapb, st.tab.map fun kv => (kv.1, growBinRow P st.maxapb kv.2)⟩
+    else st
+  ⟨st1.maxapb, st1.width, (e.2, ((st1.get e.2).set 0 c).set c e.1) :: st1.tab⟩
+
+def initBins (P : BinParams) : BinTab := ⟨P.init, P.initWidth P.init, []⟩
+
+def fillBins (P : BinParams) (es : List (Nat × Idx)) : BinTab := es.foldl (binFill P) (initBins P)
+
+/-- `xyzbins[x, y, z, 1 .. c]` with `c = xyzbins[x, y, z, 0]`: what the sweep reads. -/
+def membersA (st : BinTab) (b : Idx) : List Nat := ((st.get b).drop 1).take ((st.get b).getD 0 0)
+
+def stencilMembersA (G : Grid) (st : BinTab) (b : Idx) : List Nat :=
+  halfStencil.flatMap fun d => if skipBin G (addIdx b d) then [] else membersA st (addIdx b d)
+
+def binPairsA (G : Grid) (st : BinTab) (b : Idx) : List (Nat × Nat) :=
+  pairsOf (membersA st b) (stencilMembersA G st b)
+
+/-- the compared pairs when the bins are read from the capacity table filled as coded. -/
+def candsOfA (P : BinParams) (G : Grid) (es : List (Nat × Idx)) : List (Nat × Nat) :=
+  let st := fillBins P es
+  (occupied es).flatMap (binPairsA G st)
+
+def candsA (P : BinParams) (S : Sys) (cutoff : Rat) : List (Nat × Nat) :=
+  let G := mkGrid S cutoff
+  candsOfA P G (entries S G)
+
 /-! ### 6. distance test -/
 
 def dist2 (S : Sys) (u v : Nat) : Rat := dmag2 S.vects S.px S.py S.pz (S.posOf u) (S.posOf v)
@@ -289,6 +359,39 @@ def runA (junk : Nat → Nat → Nat) (init delta : Nat) (S : Sys) (c2 : Rat) (c
 /-- the array returned by `nlist(system, cutoff, initialsize, deltasize)`. -/
 def nlistA (junk : Nat → Nat → Nat) (init delta : Nat) (S : Sys) (cutoff : Rat) : ArrState :=
   runA junk init delta S (cutoff * cutoff) (cands S cutoff)
+
+/-- the whole of `nlist(system, cutoff, initialsize, deltasize)` with both capacity tables as coded (bin table with
+    the growth constants `P`, per-atom rows with `initialsize`/`deltasize`). -/
+def nlistFull (P : BinParams) (junk : Nat → Nat → Nat) (init delta : Nat) (S : Sys) (cutoff : Rat) : ArrState :=
+  runA junk init delta S (cutoff * cutoff) (candsA P S cutoff)
+
+/-! ### object level: a `System` that is modified between `neighborlist` calls -/
+
+/-- what a caller can do to a `System` between two neighbor-list calls (each replaces one part of the state;
+    operations that compute — scaled setters, `wrap`, `box_set(scale=True)` — are the assignment of their result). -/
+inductive Op where
+  | setPos (i : Nat) (p : V3 Rat)          -- `system.atoms.pos[i] = p`
+  | setAll (ps : List (V3 Rat))            -- `system.atoms.pos = ps`, also `atoms_extend` / `atoms_ix[...]`
+  | setBox (v : M3 Rat) (o : V3 Rat)       -- `system.box_set(vects=v, origin=o)`
+  | setPbc (px py pz : Bool)               -- `system.pbc = (px, py, pz)`
+  | query (cutoff : Rat)                   -- `system.neighborlist(cutoff=…)` / `NeighborList(system=…, cutoff=…)`
+
+def applyOp (S : Sys) : Op → Sys
+  | .setPos i p => { S with pos := S.pos.set i p }
+  | .setAll ps => { S with pos := ps }
+  | .setBox v o => { S with vects := v, origin := o }
+  | .setPbc px py pz => { S with px := px, py := py, pz := pz }
+  | .query _ => S
+
+/-- the answers to the `query` operations of a sequence, in order: each is computed from the state the system has
+    when the call is made (no memory of earlier calls). -/
+def answers (S : Sys) : List Op → List Rows
+  | [] => []
+  | .query c :: ops => nlistL S c :: answers S ops
+  | op :: ops => answers (applyOp S op) ops
+
+/-- the state after a sequence of operations. -/
+def finalState (S : Sys) (ops : List Op) : Sys := ops.foldl applyOp S
 
 /-! ### `NeighborList`: coord / [i] -/
 
